@@ -11,6 +11,8 @@ def run(P, R, L):
     K.role1(P, R, L)
     R.clause("ACC-1", "range accumulators grow in the direction of their role (compaction inputs cover the whole key range)")
     K.acc1(P, R, L)
+    R.clause("ROLE-4", "sequence and file-number counters survive reopen (a reused sequence number would shadow newer writes)")
+    K.role4_counters(P, R, L)
     R.clause("GRD-10", "file key ranges are closed intervals: every user-key vs file-bound comparison in the crate puts the boundary key inside")
     K.grd10_closed_intervals(P, R, L)
     R.clause("GRD-3", "lookup key carries the sequence captured under the mutex")
